@@ -457,7 +457,13 @@ def main(argv=None):
                 sub = get_sub(mod, first["subcheck"])
                 if sub.setup is not None:
                     sub.setup()
-                first = minimise(sub, preds, prop, first, sub.max_shrink_s)
+                original = copy.deepcopy(first)
+                if not os.environ.get("VERIF_NO_MINIMISE"):
+                    first = minimise(sub, preds, prop, first, sub.max_shrink_s)
+                # the verdict rests on the generated case; the minimised one is a convenience and may take another route to the
+                # same kind of failure, so the generated spec travels with the replay
+                first["original_spec"] = original.get("spec")
+                first["original_message"] = original.get("message")
             except BaseException:
                 traceback.print_exc()
             outdir = os.path.join(HERE, "out", "replays", prop)
